@@ -1817,7 +1817,7 @@ fn main() {
 	// wall budget; `--budget-s N` overrides it (diagnostics on a loaded machine)
 	let budget_s = arg_value(&run.args, "--budget-s")
 		.and_then(|x| x.parse::<u64>().ok())
-		.unwrap_or(if san.is_some() { 600 } else { run.tier.pick(70, 600) });
+		.unwrap_or(if san.is_some() { 600 } else { run.tier.pick(70, 630) });
 	let shared = Arc::new(Shared {
 		run,
 		t0: Instant::now(),
@@ -3478,7 +3478,7 @@ fn ser_job(w: &Worker, chain: ChainTypes, n_per_eb: u64) {
 				continue;
 			}
 			// non-zero padding must be refused
-			if pad > 0 && k < 6 {
+			if pad > 0 && k < w.shared.tier.pick(6, 20) {
 				for pat in 1u8..(1 << pad) {
 					let mut bad = enc.clone();
 					let last = bad.len() - 1;
